@@ -129,14 +129,3 @@ fn c04_paired_append_pair_is_a_minus_b() {
     assert!(p.sample_count() == one.sample_count());
     kani::cover!(a > b);
 }
-
-// ---- frame condition (C04 / C10): Unpaired::ci_mean writes to nothing but its own locals (see kani/contracts.json)
-#[kani::proof_for_contract(Unpaired::<f32>::ci_mean)]
-#[kani::stub(crate::stats::t_value, det_t_value)]
-#[kani::stub(crate::stats::z_value, det_z_value)]
-fn c10t_frame_unpaired_ci_mean_writes_no_hidden_state() {
-    let u = Unpaired { stats_a: any_arith_f32(), stats_b: any_arith_f32() };
-    let r = u.ci_mean(any_confidence());
-    kani::cover!(r.is_ok());
-    kani::cover!(r.is_err());
-}
